@@ -29,10 +29,14 @@ const (
 	OTRSA1024
 	OTRSA2048
 	NumOT
+	// shared COT instances (ot.NewCOT(..., shared = true)): initialised once, used
+	// by several sessions over the same connection; only two-session cases draw them
+	OTCOTShared    = NumOT
+	OTCOTMalShared = NumOT + 1
 )
 
 // OTNames names the OT kinds.
-var OTNames = []string{"CO", "COT", "COT-malicious", "RSA-1024", "RSA-2048"}
+var OTNames = []string{"CO", "COT", "COT-malicious", "RSA-1024", "RSA-2048", "COT-shared", "COT-malicious-shared"}
 
 // NewOT builds an OT instance of the kind.
 func NewOT(kind int, r *simrand.DRBG) ot.OT {
@@ -47,6 +51,10 @@ func NewOT(kind int, r *simrand.DRBG) ot.OT {
 		return ot.NewRSA(r, 1024)
 	case OTRSA2048:
 		return ot.NewRSA(r, 2048)
+	case OTCOTShared:
+		return ot.NewCOT(ot.NewCO(r), r, false, true)
+	case OTCOTMalShared:
+		return ot.NewCOT(ot.NewCO(r), r, true, true)
 	}
 	panic("bad OT kind")
 }
@@ -76,6 +84,12 @@ type Session struct {
 	// will never come), both sockets are closed as an operator would do, and
 	// the parties run on to whatever they return.
 	AbortOnStall bool
+	// Next, if set, is a second session (Circ, X, Y) that the same two
+	// processes run after the first one succeeded: same OT objects, same
+	// env.Config, as the evaluator loop of apps/garbled does. SameConn: over the
+	// same p2p.Conn (what a shared COT needs), else over a fresh pipe and Conn.
+	Next     *Session
+	SameConn bool
 }
 
 // Out is what a session produced.
@@ -88,6 +102,7 @@ type Out struct {
 	OTWires      []ot.Wire
 	EA, EB       *simnet.Endpoint
 	Aborted      bool // the session stalled and was aborted
+	Next         *Out // the second session, if any (GE/EG: its own bytes only)
 }
 
 // Run executes one session under the simulator.
@@ -113,20 +128,55 @@ func Run(t *rt.Tape, s Session) *Out {
 			return true
 		}
 	}
+	var ea2, eb2 *simnet.Endpoint
+	if s.Next != nil {
+		o.Next = &Out{}
+		if !s.SameConn {
+			ea2, eb2 = simnet.Pipe("G'", "E'", s.Pipe)
+			o.Next.EA, o.Next.EB = ea2, eb2
+		}
+	}
+	abort := func(first, second *simnet.Endpoint) {
+		first.Abort()
+		if second != nil {
+			second.Abort()
+		}
+	}
+	var ge1, eg1 int // bytes of the first session on a shared connection
 	o.RR = rt.Run(rt.Config{Trace: s.Trace, NoProgress: core.NoProgressDefault, OnStall: onStall, OnCrash: func(party string, _ *rt.Task) {
 		// a crashed process loses its sockets
 		if party == "G" {
-			ea.Abort()
+			abort(ea, ea2)
 		} else if party == "E" {
-			eb.Abort()
+			abort(eb, eb2)
 		}
 	}}, t, func() {
 		rt.GoParty("G", "garbler", func() {
 			conn := p2p.NewConn(ea)
 			o.GOut, o.GErr = circuit.Garbler(cfg, conn, spy, s.Circ, s.X, false)
 			o.GDone = true
+			o.OTWires, spy.Wires = spy.Wires, nil
 			if o.GErr != nil {
-				ea.Abort()
+				abort(ea, ea2)
+				return
+			}
+			if s.Next == nil {
+				conn.Close()
+				return
+			}
+			if !s.SameConn {
+				conn.Close()
+				conn = p2p.NewConn(ea2)
+			} else {
+				conn.Flush()
+				ge1 = int(ea.SentCount())
+			}
+			n := o.Next
+			n.GOut, n.GErr = circuit.Garbler(cfg, conn, spy, s.Next.Circ, s.Next.X, false)
+			n.GDone = true
+			n.OTWires = spy.Wires
+			if n.GErr != nil {
+				abort(ea, ea2)
 			} else {
 				conn.Close()
 			}
@@ -136,14 +186,43 @@ func Run(t *rt.Tape, s Session) *Out {
 			o.EOut, o.EErr = circuit.Evaluator(conn, otE, s.Circ, s.Y, false)
 			o.EDone = true
 			if o.EErr != nil {
-				eb.Abort()
+				abort(eb, eb2)
+				return
+			}
+			if s.Next == nil {
+				conn.Close()
+				return
+			}
+			if !s.SameConn {
+				conn.Close()
+				conn = p2p.NewConn(eb2)
+			} else {
+				conn.Flush()
+				eg1 = int(eb.SentCount())
+			}
+			n := o.Next
+			n.EOut, n.EErr = circuit.Evaluator(conn, otE, s.Next.Circ, s.Next.Y, false)
+			n.EDone = true
+			if n.EErr != nil {
+				abort(eb, eb2)
 			} else {
 				conn.Close()
 			}
 		})
 	})
 	o.GE, o.EG = ea.Sent(), eb.Sent()
-	o.OTWires = spy.Wires
+	if s.Next == nil {
+		if !o.GDone {
+			o.OTWires = spy.Wires // what the garbler had handed over when the session ended
+		}
+	} else if s.SameConn {
+		ge1, eg1 = min(ge1, len(o.GE)), min(eg1, len(o.EG))
+		o.Next.GE, o.Next.EG = o.GE[ge1:], o.EG[eg1:]
+		o.GE, o.EG = o.GE[:ge1], o.EG[:eg1]
+		o.Next.EA, o.Next.EB = ea, eb
+	} else {
+		o.Next.GE, o.Next.EG = ea2.Sent(), eb2.Sent()
+	}
 	return o
 }
 
@@ -180,6 +259,7 @@ type Sample struct {
 	OT      string
 	GE, EG  string
 	Faults  []string `json:",omitempty"`
+	Second  string   `json:",omitempty"`
 }
 
 // DrawPipe draws the two directions of the pipe.
@@ -220,11 +300,38 @@ func (w *C02) Run(t *rt.Tape, trace bool) *core.Result {
 			res.Class = "compiled:" + name
 		}
 	}
-	res.Sample = Sample{Circuit: gen.Describe(circ), X: in[0].Text(16), Y: in[1].Text(16), OT: OTNames[kind], GE: core.DescribeDir(pipe.AB), EG: core.DescribeDir(pipe.BA)}
+	// One case in four (of those on a transport that is not byte-wise): the same two processes run a second session afterwards,
+	// with the same OT objects and the same env.Config (the evaluator loop of
+	// apps/garbled keeps one OT object and one circuit value for all its
+	// sessions): over a fresh connection, or over the same one (which is what a
+	// COT created with shared = true is for).
+	sess := Session{Circ: circ, X: in[0], Y: in[1], OT: kind, Pipe: pipe, Trace: trace}
+	var circ2 *circuit.Circuit
+	var in2, want2 []*big.Int
+	second := ""
+	if !small && res.Reach["circuit.compiled-from-mpcl"] == 0 && t.Choose(rt.SGen, 4) == 0 {
+		sess.SameConn = t.Choose(rt.SGen, 2) == 0
+		if sess.SameConn {
+			sess.OT = []int{OTCO, OTCOTShared, OTCOTMalShared, OTRSA1024}[t.Choose(rt.SGen, 4)]
+		} else if kind != OTCO && kind != OTRSA1024 {
+			sess.OT = OTCO // a COT that is not shared refuses a second initialisation
+		}
+		kind = sess.OT
+		circ2 = circ
+		if t.Choose(rt.SGen, 2) == 0 {
+			circ2 = gen.Circuit(t, gen.CircuitOpts{ZeroWidth: true})
+		}
+		in2 = gen.Inputs(t, circ2)
+		want2 = gen.Eval(circ2, in2)
+		sess.Next = &Session{Circ: circ2, X: in2[0], Y: in2[1]}
+		second = fmt.Sprintf("second session (same connection: %v): %s x=%s y=%s", sess.SameConn, gen.Describe(circ2), in2[0].Text(16), in2[1].Text(16))
+		res.Reach["two-sessions.same-connection="+fmt.Sprint(sess.SameConn)]++
+	}
+	res.Sample = Sample{Circuit: gen.Describe(circ), X: in[0].Text(16), Y: in[1].Text(16), OT: OTNames[kind], GE: core.DescribeDir(pipe.AB), EG: core.DescribeDir(pipe.BA), Second: second}
 	res.Class = "ot=" + OTNames[kind]
 	want := gen.Eval(circ, in)
 
-	o := Run(t, Session{Circ: circ, X: in[0], Y: in[1], OT: kind, Pipe: pipe, Trace: trace})
+	o := Run(t, sess)
 	core.Finish(res, o.RR)
 	st := o.EA.Stats
 	res.Reach["pipe.short-reads"] += st.ShortReads
@@ -271,6 +378,20 @@ func (w *C02) Run(t *rt.Tape, trace bool) *core.Result {
 	got, err := circ.Compute(gen.FlattenInputs(circ, in))
 	if err != nil || !gen.EqualOutputs(got, want) {
 		return fail("compute-disagrees", fmt.Sprintf("Circuit.Compute %s err=%v, truth table %s", gen.FmtInts(got), err, gen.FmtInts(want)))
+	}
+	if n := o.Next; n != nil {
+		switch {
+		case n.GDone && n.GErr != nil:
+			return fail("garbler-error", "second session of the process: "+n.GErr.Error())
+		case n.EDone && n.EErr != nil:
+			return fail("evaluator-error", "second session of the process: "+n.EErr.Error())
+		case !n.GDone || !n.EDone:
+			return fail("did-not-terminate", fmt.Sprintf("second session of the process: %v: garbler done=%v evaluator done=%v; unfinished tasks: %v", o.RR.Outcome, n.GDone, n.EDone, o.RR.Blocked))
+		case !gen.EqualOutputs(n.GOut, n.EOut):
+			return fail("parties-disagree", fmt.Sprintf("second session of the process: garbler %s evaluator %s", gen.FmtInts(n.GOut), gen.FmtInts(n.EOut)))
+		case !gen.EqualOutputs(n.GOut, want2):
+			return fail("wrong-result", fmt.Sprintf("second session of the process: protocol %s, truth table %s", gen.FmtInts(n.GOut), gen.FmtInts(want2)))
+		}
 	}
 	return res
 }
